@@ -20,9 +20,7 @@ import numpy as np
 from harness.common import rat, corpus_cases
 
 PID = 'C18'
-MODULES = ['NoteSeqVerif.Props.C18']
 EXE = 'drv_c18'
-THEOREMS = []          # filled below (kept in one place with the meaning of each theorem)
 
 FPS = [8, 16, 31.25, 32, 50, 62.5, 100]
 EXTRA_FPS = [10, 20, 86.1328125, 44.1, 3]
@@ -149,14 +147,6 @@ def dec_kw(case):
     kw = dict(DEC_DEFAULTS)
     kw.update(case.get('kw', {}))
     return kw
-
-
-def _mat(m, dtype=bool):
-    return None if m is None else np.array(m, dtype=dtype).reshape(len(m), len(m[0]) if m else case_w(m))
-
-
-def case_w(_):
-    return 0
 
 
 def dec_arrays(case):
@@ -542,12 +532,15 @@ def oracle_enc(sl, case):
         return None
     inrange = [n for n in notes if minp <= n[0] <= maxp]
     expect_err = kw['onset_mode'] not in MODES and inrange or any(v > kw['max_velocity'] for _, v, _, _ in inrange)
+    # outside the property (neither parameter is in its statement or quantifier): exceptions raised for the
+    # combination add_blank_frame_before_onset ∧ ¬onset_overlap are not judged (F-C18-3, see meta/C18.json)
+    unjudged = kw['add_blank_frame_before_onset'] and not kw['onset_overlap']
     try:
         pr = enc_call(sl, case)
     except ValueError as e:
-        return None if expect_err else 'ValueError on a well-formed input: %s' % e
+        return None if expect_err or unjudged else 'ValueError on a well-formed input: %s' % e
     except Exception as e:  # pylint: disable=broad-except
-        return 'unexpected %s on a well-formed input: %s' % (type(e).__name__, e)
+        return None if unjudged else 'unexpected %s on a well-formed input: %s' % (type(e).__name__, e)
     if expect_err:
         return 'no ValueError although a velocity exceeds max_velocity / the onset mode is unknown'
     rows, cols = pr.active.shape
@@ -729,11 +722,13 @@ def oracle_ons(sl, case):
     return None
 
 
-def gen_rt_roll(rng, fps=None):
+def gen_rt_roll(rng, fps=None, deep=False):
     fps = fps if fps is not None else gen_fps(rng, extra=0.0)
     n = rng.choice([1, 3, 8, 16, 40, 64, 64])
     w = rng.choice([1, 2, 5, 16])
-    base = rng.choice([0, 0, 0, 100, 1000, 30000])     # same roll further into a piece: frames base..base+n
+    base = rng.choice([0, 0, 0, 100, 1000])     # same roll further into a piece: frames base..base+n
+    if deep:
+        n, w, base = rng.choice([16, 64]), 1, rng.choice([10000, 30000, 100000])
     frames = gen_bool_matrix(rng, n, w, rng.choice(['runs', 'dense', 'iid', 'sparse']))
     return {'kind': 'rt_roll', 'fps': fps, 'w': w, 'frames': frames, 'base': base, 'min_pitch': rng.choice([21, 60, 0])}
 
@@ -760,15 +755,17 @@ def oracle_rt_roll(sl, case):
     return None
 
 
-def gen_rt_notes(rng, fps=None):
+def gen_rt_notes(rng, fps=None, deep=False):
     fps = fps if fps is not None else gen_fps(rng, extra=0.0)
     w = rng.choice([1, 3, 8, 16])
     minp = rng.choice([21, 60])
-    base = rng.choice([0, 0, 50, 2000, 100000])
+    base = rng.choice([0, 0, 50, 2000])
+    if deep:
+        w, base = 1, rng.choice([10000, 30000, 100000])
     notes = []
     for c in range(w):
         f = base + rng.randrange(0, 4)
-        for _ in range(rng.randrange(0, 6)):
+        for _ in range(rng.randrange(0, 6) + (3 if deep else 0)):
             ln = rng.randrange(1, 8)
             notes.append([minp + c, rng.randrange(1, 128), f * (1 / fps), (f + ln) * (1 / fps)])
             f += ln + rng.randrange(1, 4)       # at least one silent frame
@@ -799,7 +796,25 @@ IMPL = {'enc': enc_impl, 'dec': dec_impl, 'ons': ons_impl}
 
 
 # ----------------------------------------------------------------------------- run
+P, E, FL, DC = ('NoteSeqVerif.Props.C18', 'NoteSeqVerif.Proofs.C18Enc', 'NoteSeqVerif.Proofs.C18Float',
+                 'NoteSeqVerif.Proofs.C18Dec')
+MODULES = [FL, E, DC, P]
 THEOREMS = [
+    # float layer: no drift for every rounding operator with the IEEE properties, every fps > 0, k < 2^31
+    (FL, 'NSV.C18.rounding_id'), (FL, 'NSV.C18.grid_near'), (FL, 'NSV.C18.timeToFrames_grid'),
+    (FL, 'NSV.C18.numRows_grid'), (P, 'NSV.C18.snap_eps_ok'),
+    # encoder: cell formulas of the active / onset / velocity rolls, frame arithmetic, rejections, length
+    (E, 'NSV.C18.enc_active_cell'), (P, 'NSV.C18.frames_of_note'), (P, 'NSV.C18.noteFrames_window'),
+    (P, 'NSV.C18.noteFrames_length'), (P, 'NSV.C18.enc_onset_cell'), (P, 'NSV.C18.enc_velocity_cell'),
+    (P, 'NSV.C18.velocity_scaled_range'), (P, 'NSV.C18.roll_length'), (P, 'NSV.C18.encode_ok_valid'),
+    (P, 'NSV.C18.encode_unknown_mode'),
+    # decoder: per-pitch decomposition, run decoding, onset-aware decoding, emission order
+    (DC, 'NSV.C18.scan_column'), (DC, 'NSV.C18.colScan_runs'), (DC, 'NSV.C18.colScan_onsets'),
+    (DC, 'NSV.C18.scan_sorted'), (DC, 'NSV.C18.maxRun_of_separated'),
+    (P, 'NSV.C18.runs_decode'), (P, 'NSV.C18.onset_decode'),
+    # the two conversions are mutually inverse on the grid: any rounding with grid exactness, every Rounding R, exact
+    (P, 'NSV.C18.roll_roundtrip_of_grid'), (P, 'NSV.C18.roll_roundtrip_float'), (P, 'NSV.C18.roll_roundtrip'),
+    (P, 'NSV.C18.roll_roundtrip_notes_of_grid'), (P, 'NSV.C18.roll_roundtrip_notes_float'),
 ]
 
 
@@ -852,10 +867,11 @@ def run(chk):
         c, h = gen_enc_case(rng, malformed=True) if rng.random() < 0.6 else gen_dec_case(rng, malformed=True)
         cases.append(('malformed', c, h))
     rng = chk.subrng('roundtrip')
-    for _ in range(chk.n(100, 1500)):
+    for i in range(chk.n(100, 1500)):
         for fps in FPS:
-            cases.append(('rt', gen_rt_roll(rng, fps), {'fps:%s' % fps}))
-            cases.append(('rt', gen_rt_notes(rng, fps), {'fps:%s' % fps}))
+            deep = i % 25 == 0
+            cases.append(('rt', gen_rt_roll(rng, fps, deep), {'fps:%s' % fps} | ({'deep'} if deep else set())))
+            cases.append(('rt', gen_rt_notes(rng, fps, deep), {'fps:%s' % fps} | ({'deep'} if deep else set())))
 
     # correspondence: every enc/dec/ons request, plus both legs of every round trip
     reqs, impls, meta = [], [], []
@@ -883,8 +899,6 @@ def run(chk):
             except Exception:  # pylint: disable=broad-except
                 pass
         for leg in legs:
-            if leg['kind'] == 'dec' and not leg['frames'] and False:
-                continue
             reqs.append(REQUEST[leg['kind']](leg))
             line, _ = IMPL[leg['kind']](sl, leg)
             impls.append(line)
